@@ -16,6 +16,8 @@ package plan
 
 import (
 	"fmt"
+	"strconv"
+	"strings"
 
 	"github.com/XiaoMi/Gaea/parser/model"
 
@@ -288,7 +290,7 @@ func removeSchemaAndTableInfoInColumnName(column *ast.ColumnName) {
 // place: of a hexadecimal, bit, decimal or float literal GetValueExprResult gives
 // the SQL text (x'10', 1.50) or a float64, which is not the value the column will
 // hold (16, 1.5), so the row would be stored where no query on that value looks.
-func getInsertShardingValue(x *driver.ValueExpr) (interface{}, error) {
+func getInsertShardingValue(rule router.Rule, x *driver.ValueExpr) (interface{}, error) {
 	switch x.Kind() {
 	case types.KindNull, types.KindInt64, types.KindUint64, types.KindString, types.KindBytes:
 	default:
@@ -301,7 +303,55 @@ func getInsertShardingValue(x *driver.ValueExpr) (interface{}, error) {
 	if v == nil {
 		return nil, fmt.Errorf("sharding value cannot be null")
 	}
+	if s, ok := v.(string); ok && rule.GetType() == router.HashRuleType {
+		// the hash rule places a string of digits where it places the number and
+		// every other string by its checksum. MySQL reads ' 7', '+7', '7.0' and
+		// '7e0' as the number 7 as well: such a row belongs to the table of 7,
+		// where the queries on 7 look for it, and not to the table of its text
+		if _, err := strconv.ParseUint(s, 10, 64); err != nil && looksLikeNumber(s) {
+			return nil, fmt.Errorf("sharding value %q is a number the hash rule does not read", s)
+		}
+	}
 	return v, nil
+}
+
+// looksLikeNumber reports whether MySQL reads the whole string as a number when
+// it is stored in or compared with a numeric column: white space, a sign, digits
+// with an optional fraction, an optional exponent, white space.
+func looksLikeNumber(s string) bool {
+	s = strings.Trim(s, " \t\n\v\f\r")
+	if s != "" && (s[0] == '+' || s[0] == '-') {
+		s = s[1:]
+	}
+	i, digits := 0, 0
+	for i < len(s) && '0' <= s[i] && s[i] <= '9' {
+		i++
+		digits++
+	}
+	if i < len(s) && s[i] == '.' {
+		i++
+		for i < len(s) && '0' <= s[i] && s[i] <= '9' {
+			i++
+			digits++
+		}
+	}
+	if digits == 0 {
+		return false
+	}
+	if i < len(s) && (s[i] == 'e' || s[i] == 'E') {
+		i++
+		if i < len(s) && (s[i] == '+' || s[i] == '-') {
+			i++
+		}
+		start := i
+		for i < len(s) && '0' <= s[i] && s[i] <= '9' {
+			i++
+		}
+		if i == start {
+			return false
+		}
+	}
+	return i == len(s)
 }
 
 // TODO: refactor
@@ -311,7 +361,7 @@ func handleInsertValues(p *InsertPlan) error {
 		valueItem := p.stmt.Setlist[p.shardingColumnIndex].Expr
 		switch x := valueItem.(type) {
 		case *driver.ValueExpr:
-			v, err := getInsertShardingValue(x)
+			v, err := getInsertShardingValue(p.tableRules[p.table], x)
 			if err != nil {
 				return err
 			}
@@ -335,7 +385,7 @@ func handleInsertValues(p *InsertPlan) error {
 		valueItem := valueList[p.shardingColumnIndex]
 		switch x := valueItem.(type) {
 		case *driver.ValueExpr:
-			v, err := getInsertShardingValue(x)
+			v, err := getInsertShardingValue(p.tableRules[p.table], x)
 			if err != nil {
 				return err
 			}
